@@ -17,7 +17,8 @@ EXTENDS Leaf
 DefaultCx == [native |-> {}, omit_none |-> "unset", by_alias |-> "unset", dlct |-> <<>>,
               fmtd |-> <<>>, nt_dict |-> FALSE,
               levels |-> <<>>,      \* strategy tables in precedence order (set per dataclass / per codec)
-              fopt |-> <<>>]        \* field-level options of the field being converted (C10)
+              fopt |-> <<>>,        \* field-level options of the field being converted (C10)
+              nocopy |-> {}]        \* no_copy_collections in effect: subset of {"list", "dict", "set"} (C18)
 
 \* ---- customisation precedence (C10, DESIGN.md App. A.6) ---------------------------------
 \* strategy term:  <<"mark", id, mode>> (mode "both" | "ser" | "deser")   <<"pass_through">>
@@ -109,6 +110,25 @@ ClassLevels(T, cx) ==
      GetOpt(DcCfg(T), "cfg_strategy", <<>>),
      GetOpt(cx.fmtd, "strategy", <<>>) >>
 
+\* no_copy_collections in effect for class T: call dialect > Config.dialect > format dialect
+ClassNoCopy(T, cx) ==
+  LET cdl == IF "dialect_flag" \in Flags(T) THEN cx.dlct ELSE <<>>
+      cfgd == GetOpt(DcCfg(T), "dialect", <<>>) IN
+  IF HasOpt(cdl, "no_copy") THEN GetOpt(cdl, "no_copy", {})
+  ELSE IF HasOpt(cfgd, "no_copy") THEN GetOpt(cfgd, "no_copy", {})
+  ELSE GetOpt(cx.fmtd, "no_copy", {})
+
+\* a position whose serialisation is the identity: scalars / Any, or a listed collection of such
+\* (no customisation level may apply to it)
+RECURSIVE ConvFree(_, _)
+ConvFree(T, cx) ==
+  /\ Winner(T, cx, "ser") = <<"#builtin">>
+  /\ CASE T[1] \in {"int", "float", "bool", "str", "none", "any"} -> TRUE
+       [] T[1] = "list" -> "list" \in cx.nocopy /\ ConvFree(T[2], ElemCx(cx))
+       [] T[1] = "dict" -> "dict" \in cx.nocopy /\ ConvFree(T[2], ElemCx(cx)) /\ ConvFree(T[3], ElemCx(cx))
+       [] T[1] = "set"  -> "set" \in cx.nocopy /\ ConvFree(T[2], ElemCx(cx))
+       [] OTHER -> FALSE
+
 RECURSIVE Pack(_, _, _)
 RECURSIVE PackB(_, _, _)
 RECURSIVE PackSeq(_, _, _)
@@ -187,7 +207,7 @@ PackDC(T, cx, v0) ==
       od   == EffOpt(T, cx, "omit_default")
       ba   == EffOpt(T, cx, "by_alias")
       ncx0 == NestCx(T, cx)
-      ncx  == [ncx0 EXCEPT !.levels = ClassLevels(T, cx)]
+      ncx  == [ncx0 EXCEPT !.levels = ClassLevels(T, cx), !.nocopy = ClassNoCopy(T, cx)]
       fcx(i) == [ncx EXCEPT !.fopt = FOpts(fs[i])]
       keep(i) == /\ GetOpt(FOpts(fs[i]), "ser", "") # "omit"
                  /\ ~(on /\ IsNone(vals[i]))
@@ -219,7 +239,9 @@ PackB(T, cx, v) ==
     [] T[1] = "flag" -> I(v[3])
     [] T[1] = "literal" -> PackLiteral(T, cx, v)
     [] T[1] \in {"list", "deque", "seq", "mseq", "vtuple"} -> L(PackSeq(T[2], cx, v[2]))
-    [] T[1] \in {"set", "frozenset", "aset"} -> <<"bag", { Pack(T[2], ElemCx(cx), e) : e \in v[2] }>>
+    [] T[1] \in {"set", "frozenset", "aset"} ->
+         IF T[1] = "set" /\ ConvFree(T, cx) THEN v          \* passed by reference under no_copy_collections: stays a set
+         ELSE <<"bag", { Pack(T[2], ElemCx(cx), e) : e \in v[2] }>>
     [] T[1] = "tuple" -> L([i \in DOMAIN T[2] |-> Pack(T[2][i], ElemCx(cx), v[2][i])])
     [] T[1] = "utuple" ->       \* Tuple[pre..., *Tuple[mid, ...], post...]
          LET n == Len(v[2]) p == Len(T[2]) q == Len(T[4]) IN
